@@ -4,6 +4,7 @@ import StepModel.GenPyOrder
 import StepModel.GenPyEntityOrder
 import StepModel.GenPyBody
 import StepModel.GenPyStmt
+import StepModel.GenPyCase
 /-!
 # C18 — exp2python emits a module that mirrors the schema
 
@@ -2354,6 +2355,521 @@ example : FirstBefore { owner := "l", name := "y", kind := .explicit } { owner :
   · exact absurd h (by decide)
   · have := rank_of_anc forkZ rankD forkZ_rank h
     revert this; decide
+
+
+/-! ## CASE: the temporary `case_selector` as an extra variable (model extension `GenPyCase.lean`) -/
+
+namespace Stmt
+open Body
+
+theorem lookup_frame (k : String) (v : V) (back : Env) (n : String) (hn : (k == n) = false) :
+    ∀ front : Env, lookup (front ++ (k, v) :: back) n = lookup (front ++ back) n
+  | [] => by
+    have : ¬ k = n := by simpa using hn
+    simp [lookup, this]
+  | (k', v') :: rest => by
+    simp only [List.cons_append, lookup, lookup_frame k v back n hn rest]
+
+theorem pyEvalF_frame (k : String) (v : V) (front back : Env) :
+    ∀ e : PyExpr, exprUses k e = false → pyEvalF (front ++ (k, v) :: back) e = pyEvalF (front ++ back) e := by
+  intro e
+  induction e with
+  | int n => intro _; rfl
+  | name s => intro _; rfl
+  | attr s =>
+    intro h
+    simp only [exprUses] at h
+    have hk : (k == s) = false := by
+      cases hks : (k == s) with
+      | false => rfl
+      | true => have : s = k := (by simpa using hks : k = s).symm; subst this; simp at h
+    simp only [pyEvalF, lookup_frame k v back s hk front]
+  | un op x ih => intro h; simp only [exprUses] at h; simp only [pyEvalF, ih h]
+  | bin op l r ihl ihr =>
+    intro h; simp only [exprUses, Bool.or_eq_false_iff] at h
+    simp only [pyEvalF, ihl h.1, ihr h.2]
+  | chain op l r ihl ihr =>
+    intro h; simp only [exprUses, Bool.or_eq_false_iff] at h
+    simp only [pyEvalF, ihl h.1, ihr h.2]
+
+theorem pyEval_frame (k : String) (v : V) (front back : Env) (e : PyExpr) (h : exprUses k e = false) :
+    pyEval (front ++ (k, v) :: back) e = pyEval (front ++ back) e := by
+  unfold pyEval; rw [pyEvalF_frame k v front back e h]
+
+/-- a runner with the extra binding follows the runner without it -/
+def Frames (k : String) (v : V) (back : Env) (runX run0 : Env → Option (Env × Out)) : Prop :=
+  ∀ (front : Env) (e' : Env) (o : Out), run0 (front ++ back) = some (e', o) →
+    ∃ front', e' = front' ++ back ∧ runX (front ++ (k, v) :: back) = some (front' ++ (k, v) :: back, o)
+
+theorem pyUntil_frame (k : String) (v : V) (back : Env) (un : Option PyExpr) (hu : optUses k un = false) :
+    Frames k v back (pyUntil un) (pyUntil un) := by
+  intro front e' o h
+  cases un with
+  | none => simp only [pyUntil, Option.some.injEq, Prod.mk.injEq] at h; obtain ⟨rfl, rfl⟩ := h; exact ⟨front, rfl, rfl⟩
+  | some u =>
+    simp only [optUses] at hu
+    simp only [pyUntil] at h ⊢
+    rw [pyEval_frame k v front back u hu]
+    cases hv : pyEval (front ++ back) u with
+    | none => simp [hv] at h
+    | some w =>
+      simp only [hv, Option.map_some, Option.some.injEq, Prod.mk.injEq] at h
+      obtain ⟨rfl, rfl⟩ := h
+      exact ⟨front, rfl, rfl⟩
+
+theorem pyPass_frame (k : String) (v : V) (back : Env) (wh un : Option PyExpr) (hw : optUses k wh = false)
+    (hu : optUses k un = false) (runX run0 : Env → Option (Env × Out)) (hr : Frames k v back runX run0) :
+    Frames k v back (pyPass wh un runX) (pyPass wh un run0) := by
+  have hgo : ∀ front e' o, pyAfterBody un (run0 (front ++ back)) = some (e', o) →
+      ∃ front', e' = front' ++ back ∧ pyAfterBody un (runX (front ++ (k, v) :: back)) = some (front' ++ (k, v) :: back, o) := by
+    intro front e' o h
+    cases hr0 : run0 (front ++ back) with
+    | none => simp [hr0, pyAfterBody] at h
+    | some q =>
+      obtain ⟨e1, o1⟩ := q
+      obtain ⟨f1, rfl, hx⟩ := hr front e1 o1 hr0
+      rw [hx]; rw [hr0] at h
+      cases o1 with
+      | normal => simp only [pyAfterBody] at h ⊢; exact pyUntil_frame k v back un hu f1 e' o h
+      | skipped => simp only [pyAfterBody, Option.some.injEq, Prod.mk.injEq] at h; obtain ⟨rfl, rfl⟩ := h; exact ⟨f1, rfl, rfl⟩
+      | escaped => simp only [pyAfterBody, Option.some.injEq, Prod.mk.injEq] at h; obtain ⟨rfl, rfl⟩ := h; exact ⟨f1, rfl, rfl⟩
+      | returned w => simp only [pyAfterBody, Option.some.injEq, Prod.mk.injEq] at h; obtain ⟨rfl, rfl⟩ := h; exact ⟨f1, rfl, rfl⟩
+  intro front e' o h
+  cases wh with
+  | none => simp only [pyPass] at h ⊢; exact hgo front e' o h
+  | some w =>
+    simp only [optUses] at hw
+    simp only [pyPass] at h ⊢
+    rw [pyEval_frame k v front back w hw]
+    cases hv : pyEval (front ++ back) w with
+    | none => simp [hv] at h
+    | some x =>
+      simp only [hv] at h ⊢
+      by_cases ht : x.truthy = true
+      · simp only [ht, if_true] at h ⊢; exact hgo front e' o h
+      · have hf : x.truthy = false := by simpa using ht
+        simp only [hf, Bool.false_eq_true, if_false, Option.some.injEq, Prod.mk.injEq] at h
+        obtain ⟨rfl, rfl⟩ := h
+        refine ⟨front, rfl, ?_⟩
+        simp only [hf, Bool.false_eq_true, if_false]
+
+theorem pyLoop_frame (k : String) (v : V) (back : Env) (runX run0 : Env → Option (Env × Out)) (hr : Frames k v back runX run0)
+    (i : String) (stop s : Int) :
+    ∀ (n : Nat) (cur : Int), Frames k v back (fun env => pyLoop runX n env i cur stop s) (fun env => pyLoop run0 n env i cur stop s) := by
+  intro n
+  induction n with
+  | zero => intro cur front e' o h; simp [pyLoop] at h
+  | succ n ih =>
+    intro cur front e' o h
+    simp only [pyLoop] at h ⊢
+    split at h
+    · rename_i hc
+      simp only [hc, if_true]
+      cases hr0 : run0 ((i, .int cur) :: (front ++ back)) with
+      | none => simp [hr0] at h
+      | some q =>
+        obtain ⟨e1, o1⟩ := q
+        obtain ⟨f1, rfl, hx⟩ := hr ((i, .int cur) :: front) e1 o1 hr0
+        simp only [List.cons_append] at hx
+        rw [hx]; simp only [hr0] at h
+        cases o1 with
+        | normal => exact ih (cur + s) f1 e' o h
+        | skipped => exact ih (cur + s) f1 e' o h
+        | escaped => simp only [Option.some.injEq, Prod.mk.injEq] at h; obtain ⟨rfl, rfl⟩ := h; exact ⟨f1, rfl, rfl⟩
+        | returned w => simp only [Option.some.injEq, Prod.mk.injEq] at h; obtain ⟨rfl, rfl⟩ := h; exact ⟨f1, rfl, rfl⟩
+    · rename_i hc
+      simp only [Option.some.injEq, Prod.mk.injEq] at h
+      obtain ⟨rfl, rfl⟩ := h
+      refine ⟨front, rfl, ?_⟩
+      rw [if_neg hc]
+
+theorem pyWhile_frame (k : String) (v : V) (back : Env) (runX run0 : Env → Option (Env × Out)) (hr : Frames k v back runX run0) :
+    ∀ n : Nat, Frames k v back (pyWhile runX n) (pyWhile run0 n) := by
+  intro n
+  induction n with
+  | zero => intro front e' o h; simp [pyWhile] at h
+  | succ n ih =>
+    intro front e' o h
+    simp only [pyWhile] at h ⊢
+    cases hr0 : run0 (front ++ back) with
+    | none => simp [hr0] at h
+    | some q =>
+      obtain ⟨e1, o1⟩ := q
+      obtain ⟨f1, rfl, hx⟩ := hr front e1 o1 hr0
+      rw [hx]; simp only [hr0] at h
+      cases o1 with
+      | normal => exact ih f1 e' o h
+      | skipped => exact ih f1 e' o h
+      | escaped => simp only [Option.some.injEq, Prod.mk.injEq] at h; obtain ⟨rfl, rfl⟩ := h; exact ⟨f1, rfl, rfl⟩
+      | returned w => simp only [Option.some.injEq, Prod.mk.injEq] at h; obtain ⟨rfl, rfl⟩ := h; exact ⟨f1, rfl, rfl⟩
+
+theorem pyExec_frame (k : String) (v : V) (back : Env) :
+    ∀ (f : Nat) (p : PyStmt), stmtUses k p = false →
+      Frames k v back (fun env => pyExec f env p) (fun env => pyExec f env p) := by
+  intro f
+  induction f with
+  | zero => intro p _ front e' o h; simp [pyExec] at h
+  | succ f ih =>
+    intro p hu front e' o h
+    cases p with
+    | pass =>
+      simp only [pyExec, Option.some.injEq, Prod.mk.injEq] at h ⊢
+      obtain ⟨rfl, rfl⟩ := h; exact ⟨front, rfl, rfl, rfl⟩
+    | seq a b =>
+      simp only [stmtUses, Bool.or_eq_false_iff] at hu
+      simp only [pyExec] at h ⊢
+      cases ha : pyExec f (front ++ back) a with
+      | none => simp [ha] at h
+      | some q =>
+        obtain ⟨e1, o1⟩ := q
+        obtain ⟨f1, rfl, hx⟩ := ih a hu.1 front e1 o1 ha
+        simp only at hx
+        rw [hx]; simp only [ha] at h
+        cases o1 with
+        | normal => exact ih b hu.2 f1 e' o h
+        | skipped => simp only [Option.some.injEq, Prod.mk.injEq] at h; obtain ⟨rfl, rfl⟩ := h; exact ⟨f1, rfl, rfl⟩
+        | escaped => simp only [Option.some.injEq, Prod.mk.injEq] at h; obtain ⟨rfl, rfl⟩ := h; exact ⟨f1, rfl, rfl⟩
+        | returned w => simp only [Option.some.injEq, Prod.mk.injEq] at h; obtain ⟨rfl, rfl⟩ := h; exact ⟨f1, rfl, rfl⟩
+    | assign x e =>
+      simp only [stmtUses, Bool.or_eq_false_iff] at hu
+      simp only [pyExec] at h ⊢
+      rw [pyEval_frame k v front back e hu.2]
+      cases hv : pyEval (front ++ back) e with
+      | none => simp [hv] at h
+      | some w =>
+        simp only [hv, Option.map_some, Option.some.injEq, Prod.mk.injEq] at h ⊢
+        obtain ⟨rfl, rfl⟩ := h
+        exact ⟨(x, w) :: front, rfl, rfl, rfl⟩
+    | ite c t e =>
+      simp only [stmtUses, Bool.or_eq_false_iff] at hu
+      simp only [pyExec] at h ⊢
+      rw [pyEval_frame k v front back c hu.1.1]
+      cases hv : pyEval (front ++ back) c with
+      | none => simp [hv] at h
+      | some w =>
+        simp only [hv] at h ⊢
+        by_cases ht : w.truthy = true
+        · simp only [ht, if_true] at h ⊢; exact ih t hu.1.2 front e' o h
+        · have hf : w.truthy = false := by simpa using ht
+          simp only [hf, Bool.false_eq_true, if_false] at h ⊢; exact ih e hu.2 front e' o h
+    | forRange i a b st wh un body =>
+      simp only [stmtUses, Bool.or_eq_false_iff] at hu
+      simp only [pyExec] at h ⊢
+      rw [pyEval_frame k v front back a hu.1.1.1.1.2, pyEval_frame k v front back b hu.1.1.1.2]
+      cases hva : pyEval (front ++ back) a with
+      | none => simp [hva] at h
+      | some va =>
+        cases hvb : pyEval (front ++ back) b with
+        | none => simp [hva, hvb] at h
+        | some vb =>
+          simp only [hva, hvb] at h ⊢
+          have hi : (k == i) = false := by
+            cases hki : (k == i) with
+            | false => rfl
+            | true => have : i = k := (by simpa using hki : k = i).symm; subst this; simp at hu
+          exact pyLoop_frame k v back _ _
+            (pyPass_frame k v back wh un hu.1.1.2 hu.1.2 _ _ (ih body hu.2)) i _ st f va.toInt front e' o h
+    | while_ c un body =>
+      simp only [stmtUses, Bool.or_eq_false_iff] at hu
+      simp only [pyExec] at h ⊢
+      exact pyWhile_frame k v back _ _ (pyPass_frame k v back c un hu.1.1 hu.1.2 _ _ (ih body hu.2)) f front e' o h
+    | break_ =>
+      simp only [pyExec, Option.some.injEq, Prod.mk.injEq] at h ⊢
+      obtain ⟨rfl, rfl⟩ := h; exact ⟨front, rfl, rfl, rfl⟩
+    | continue_ =>
+      simp only [pyExec, Option.some.injEq, Prod.mk.injEq] at h ⊢
+      obtain ⟨rfl, rfl⟩ := h; exact ⟨front, rfl, rfl, rfl⟩
+    | ret e =>
+      simp only [stmtUses] at hu
+      simp only [pyExec] at h ⊢
+      rw [pyEval_frame k v front back e hu]
+      cases hv : pyEval (front ++ back) e with
+      | none => simp [hv] at h
+      | some w =>
+        simp only [hv, Option.map_some, Option.some.injEq, Prod.mk.injEq] at h ⊢
+        obtain ⟨rfl, rfl⟩ := h
+        exact ⟨front, rfl, rfl, rfl⟩
+
+theorem tr_pick (v : Int) (other : Option Stmt) (po : PyStmt)
+    (ho : trOther other = some po) :
+    ∀ (items : List (Nat × Stmt)) (pi : List (Nat × PyStmt)), trItems items = some pi →
+      tr (Spec.Stmt.pick v items other) = some (pyPick (.int v) pi po)
+  | [], pi, h => by
+    simp only [trItems, Option.some.injEq] at h; subst h
+    cases other with
+    | none => simp only [trOther, Option.some.injEq] at ho; subst ho; rfl
+    | some o => simpa [Spec.Stmt.pick, pyPick, trOther] using ho
+  | (l, a) :: rest, pi, h => by
+    simp only [trItems, Option.bind_eq_bind, Option.pure_def] at h
+    cases hpa : tr a with
+    | none => simp [hpa] at h
+    | some pa =>
+      cases hpr : trItems rest with
+      | none => simp [hpa, hpr] at h
+      | some pr =>
+        simp only [hpa, hpr, Option.bind_some, Option.some.injEq] at h; subst h
+        simp only [Spec.Stmt.pick, pyPick, cmpOp, V.toInt]
+        by_cases hv : v = (l : Int)
+        · simp [hv, hpa]
+        · simp only [beq_iff_eq, hv, if_false]
+          exact tr_pick v other po ho rest pr hpr
+
+theorem pyName_caseTemp {n : String} (h : pyName n = caseTemp) : n = caseTemp := by
+  have hc : pyName caseTemp = caseTemp := by decide
+  exact C18_escaping_is_injective n caseTemp (h.trans hc.symm)
+
+theorem readWith_uses : ∀ (e : Expr) (p : PyExpr), readWith exprCfg e = some p → exprMentions caseTemp e = false →
+    exprUses caseTemp p = false := by
+  intro e
+  induction e with
+  | int n => intro p h _; simp only [readWith, Option.some.injEq] at h; subst h; rfl
+  | tt => intro p h _; simp only [readWith, Option.some.injEq] at h; subst h; rfl
+  | ff => intro p h _; simp only [readWith, Option.some.injEq] at h; subst h; rfl
+  | attr n =>
+    intro p h hm
+    simp only [readWith, readAttr, exprCfg, if_true, Option.some.injEq] at h; subst h
+    simp only [exprMentions] at hm
+    simp only [exprUses]
+    cases hb : (pyName n == caseTemp) with
+    | false => rfl
+    | true => have := pyName_caseTemp (by simpa using hb); subst this; simp at hm
+  | selfAttr n =>
+    intro p h hm
+    simp only [readWith, readAttr, exprCfg, if_true, Option.some.injEq] at h; subst h
+    simp only [exprMentions] at hm
+    simp only [exprUses]
+    cases hb : (pyName n == caseTemp) with
+    | false => rfl
+    | true => have := pyName_caseTemp (by simpa using hb); subst this; simp at hm
+  | un op x ih =>
+    intro p h hm
+    simp only [readWith] at h
+    cases hx : readWith exprCfg x with
+    | none => simp [hx] at h
+    | some px =>
+      simp only [hx, Option.map_some, Option.some.injEq] at h; subst h
+      simp only [exprMentions] at hm
+      simp only [exprUses, ih px hx hm]
+  | bin op l r ihl ihr =>
+    intro p h hm
+    simp only [readWith] at h
+    simp only [exprMentions, Bool.or_eq_false_iff] at hm
+    cases hl : readWith exprCfg l with
+    | none => simp [hl] at h
+    | some pl =>
+      cases hr : readWith exprCfg r with
+      | none => simp [hl, hr] at h
+      | some pr =>
+        simp only [hl, hr, Option.some.injEq] at h
+        have hnc : ¬ (op = .xor ∧ exprCfg.xorSkips = true ∧ isXor r = true) := by
+          rintro ⟨_, h2, _⟩; simp [exprCfg] at h2
+        rw [if_neg hnc] at h; subst h
+        simp only [exprUses, ihl pl hl hm.1, ihr pr hr hm.2, Bool.or_self]
+
+theorem trOpt_uses (o : Option Expr) (po : Option PyExpr) (h : trOpt o = some po) (hm : optMentions caseTemp o = false) :
+    optUses caseTemp po = false := by
+  rcases trOpt_some h with ⟨rfl, rfl⟩ | ⟨e, p, rfl, rfl, hp⟩
+  · rfl
+  · exact readWith_uses e p hp hm
+
+theorem tr_uses : ∀ (s : Stmt) (p : PyStmt), tr s = some p → stmtMentions caseTemp s = false → stmtUses caseTemp p = false := by
+  intro s
+  induction s with
+  | nop => intro p h _; simp only [tr, Option.some.injEq] at h; subst h; rfl
+  | seq a b iha ihb =>
+    intro p h hm
+    simp only [stmtMentions, Bool.or_eq_false_iff] at hm
+    simp only [tr, Option.bind_eq_bind, Option.pure_def] at h
+    cases ha : tr a with
+    | none => simp [ha] at h
+    | some pa =>
+      cases hb : tr b with
+      | none => simp [ha, hb] at h
+      | some pb =>
+        simp only [ha, hb, Option.bind_some, Option.some.injEq] at h; subst h
+        simp only [stmtUses, iha pa ha hm.1, ihb pb hb hm.2, Bool.or_self]
+  | assign x e =>
+    intro p h hm
+    simp only [stmtMentions, Bool.or_eq_false_iff] at hm
+    simp only [tr] at h
+    cases he : readWith exprCfg e with
+    | none => simp [he] at h
+    | some pe =>
+      simp only [he, Option.map_some, Option.some.injEq] at h; subst h
+      simp only [stmtUses, readWith_uses e pe he hm.2, Bool.or_false]
+      cases hb : (pyName x == caseTemp) with
+      | false => rfl
+      | true => have := pyName_caseTemp (by simpa using hb); subst this; simp at hm
+  | ite c t e iht ihe =>
+    intro p h hm
+    simp only [stmtMentions, Bool.or_eq_false_iff] at hm
+    simp only [tr, Option.bind_eq_bind, Option.pure_def] at h
+    cases hc : readWith exprCfg c with
+    | none => simp [hc] at h
+    | some pc =>
+      cases ht : tr t with
+      | none => simp [hc, ht] at h
+      | some pt =>
+        cases hee : tr e with
+        | none => simp [hc, ht, hee] at h
+        | some pe =>
+          simp only [hc, ht, hee, Option.bind_some, Option.some.injEq] at h; subst h
+          simp only [stmtUses, readWith_uses c pc hc hm.1.1, iht pt ht hm.1.2, ihe pe hee hm.2, Bool.or_self]
+  | repeatInc i a b st wh un body ih =>
+    intro p h hm
+    simp only [stmtMentions, Bool.or_eq_false_iff] at hm
+    simp only [tr, Option.bind_eq_bind, Option.pure_def] at h
+    cases ha : readWith exprCfg a with
+    | none => simp [ha] at h
+    | some pa =>
+      cases hb : readWith exprCfg b with
+      | none => simp [ha, hb] at h
+      | some pb =>
+        cases hbody : tr body with
+        | none => simp [ha, hb, hbody] at h
+        | some pbody =>
+          cases hw : trOpt wh with
+          | none => simp [ha, hb, hbody, hw] at h
+          | some pw =>
+            cases hu : trOpt un with
+            | none => simp [ha, hb, hbody, hw, hu] at h
+            | some pu =>
+              simp only [ha, hb, hbody, hw, hu, Option.bind_some, Option.some.injEq] at h; subst h
+              have hi : (pyName i == caseTemp) = false := by
+                cases hbi : (pyName i == caseTemp) with
+                | false => rfl
+                | true => have := pyName_caseTemp (by simpa using hbi); subst this; simp at hm
+              simp only [stmtUses, hi, readWith_uses a pa ha hm.1.1.1.1.2, readWith_uses b pb hb hm.1.1.1.2,
+                trOpt_uses wh pw hw hm.1.1.2, trOpt_uses un pu hu hm.1.2, ih pbody hbody hm.2, Bool.or_self]
+  | repeatWhile wh un body ih =>
+    intro p h hm
+    simp only [stmtMentions, Bool.or_eq_false_iff] at hm
+    simp only [tr, Option.bind_eq_bind, Option.pure_def] at h
+    cases hbody : tr body with
+    | none => simp [hbody] at h
+    | some pbody =>
+      cases hw : trOpt wh with
+      | none => simp [hbody, hw] at h
+      | some pw =>
+        cases hu : trOpt un with
+        | none => simp [hbody, hw, hu] at h
+        | some pu =>
+          simp only [hbody, hw, hu, Option.bind_some, Option.some.injEq] at h; subst h
+          simp only [stmtUses, trOpt_uses wh pw hw hm.1.1, trOpt_uses un pu hu hm.1.2, ih pbody hbody hm.2, Bool.or_self]
+  | skip =>
+    intro p h _
+    simp only [tr, Option.some.injEq] at h; subst h
+    cases skipIsContinue <;> rfl
+  | escape => intro p h _; simp only [tr, Option.some.injEq] at h; subst h; rfl
+  | ret e =>
+    intro p h hm
+    simp only [stmtMentions] at hm
+    simp only [tr] at h
+    cases he : readWith exprCfg e with
+    | none => simp [he] at h
+    | some pe =>
+      simp only [he, Option.map_some, Option.some.injEq] at h; subst h
+      simp only [stmtUses, readWith_uses e pe he hm]
+
+theorem pick_mentions (c : Case) (hf : c.fresh = true) (v : Int) :
+    stmtMentions caseTemp (Spec.Stmt.pick v c.items c.other) = false := by
+  unfold Case.fresh at hf
+  simp only [Bool.and_eq_true, List.all_eq_true, Bool.not_eq_eq_eq_not, Bool.not_true] at hf
+  obtain ⟨hi, ho⟩ := hf
+  generalize c.items = items at hi
+  induction items with
+  | nil =>
+    cases hoo : c.other with
+    | none => simp [Spec.Stmt.pick, stmtMentions]
+    | some o => simp only [hoo] at ho; simpa [Spec.Stmt.pick] using ho
+  | cons it rest ih =>
+    obtain ⟨l, a⟩ := it
+    simp only [Spec.Stmt.pick]
+    split
+    · exact hi (l, a) List.mem_cons_self
+    · exact ih (fun x hx => hi x (List.mem_cons_of_mem _ hx))
+
+end Stmt
+
+/-- **CASE, with the temporary as an extra variable.**  `CASE sel OF l1 : a1; …; OTHERWISE : o; END_CASE` (actions from the
+statement fragment) is written `case_selector = sel` followed by an `if`/`elif` chain.  Whenever the reference semantics
+(13.4: the selector evaluated once, the first item with that label, else OTHERWISE, else nothing) runs the CASE to a result,
+the written Python reaches the same way of ending, and its final environment is the image of EXPRESS's final environment
+under the escaped names **with one more binding, the temporary**, put where the CASE began — *provided the temporary is
+fresh*: no written action reads or assigns the Python name `case_selector`.  The finding
+`func-value:variable-named-case-selector` is exactly the failure of that hypothesis. -/
+theorem C18_case_translated (fuel : Nat) (env : Stmt.Env) (c : Stmt.Case) (pc : Stmt.PyCase) (r : Stmt.Env × Stmt.Out)
+    (hw : ∀ v, Stmt.wf (Spec.Stmt.pick v c.items c.other) = true)
+    (htr : Stmt.trCase c = some pc)
+    (hfresh : ∀ v : Int, Stmt.stmtUses Stmt.caseTemp (Stmt.pyPick (.int v) pc.items pc.other) = false)
+    (hs : Spec.Stmt.execCase fuel env c = some r) :
+    ∃ (v : Int) (front : Stmt.Env), Body.instanceOf r.1 = front ++ Body.instanceOf env ∧
+      Stmt.pyExecCase fuel (Body.instanceOf env) pc =
+        some (front ++ (Stmt.caseTemp, .int v) :: Body.instanceOf env, r.2) := by
+  unfold Stmt.trCase at htr
+  simp only [Option.bind_eq_bind, Option.pure_def] at htr
+  cases hps : Body.readWith Stmt.exprCfg c.sel with
+  | none => simp [hps] at htr
+  | some ps =>
+    cases hpi : Stmt.trItems c.items with
+    | none => simp [hps, hpi] at htr
+    | some pi =>
+      cases hpo : Stmt.trOther c.other with
+      | none => simp [hps, hpi, hpo] at htr
+      | some po =>
+        simp only [hps, hpi, hpo, Option.bind_some, Option.some.injEq] at htr; subst htr
+        unfold Spec.Stmt.execCase at hs
+        cases hv : Spec.Body.eval env c.sel with
+        | none => simp [hv] at hs
+        | some sv =>
+          cases sv with
+          | bool _ => simp [hv] at hs
+          | int v =>
+            simp only [hv] at hs
+            have hp := Stmt.tr_pick v c.other po hpo c.items pi hpi
+            have hsim := Stmt.stmt_sim fuel env _ _ r (hw v) hp hs
+            obtain ⟨front, hfr, hx⟩ := Stmt.pyExec_frame Stmt.caseTemp (.int v) (Body.instanceOf env) fuel _ (hfresh v)
+              [] _ _ (by simpa using hsim)
+            refine ⟨v, front, hfr, ?_⟩
+            unfold Stmt.pyExecCase
+            rw [Stmt.expr_value env c.sel (.int v) ps hv hps]
+            simpa using hx
+
+/-- The same with the freshness stated on the schema: no identifier in the actions of the CASE is called `case_selector`
+(`Case.fresh`). -/
+theorem C18_case_translated_when_no_identifier_is_the_temporary (fuel : Nat) (env : Stmt.Env) (c : Stmt.Case) (pc : Stmt.PyCase)
+    (r : Stmt.Env × Stmt.Out) (hw : ∀ v, Stmt.wf (Spec.Stmt.pick v c.items c.other) = true)
+    (htr : Stmt.trCase c = some pc) (hfresh : c.fresh = true) (hs : Spec.Stmt.execCase fuel env c = some r) :
+    ∃ (v : Int) (front : Stmt.Env), Body.instanceOf r.1 = front ++ Body.instanceOf env ∧
+      Stmt.pyExecCase fuel (Body.instanceOf env) pc =
+        some (front ++ (Stmt.caseTemp, .int v) :: Body.instanceOf env, r.2) := by
+  refine C18_case_translated fuel env c pc r hw htr ?_ hs
+  intro v
+  have htr' := htr
+  unfold Stmt.trCase at htr'
+  simp only [Option.bind_eq_bind, Option.pure_def] at htr'
+  cases hps : Body.readWith Stmt.exprCfg c.sel with
+  | none => simp [hps] at htr'
+  | some ps =>
+    cases hpi : Stmt.trItems c.items with
+    | none => simp [hps, hpi] at htr'
+    | some pi =>
+      cases hpo : Stmt.trOther c.other with
+      | none => simp [hps, hpi, hpo] at htr'
+      | some po =>
+        simp only [hps, hpi, hpo, Option.bind_some, Option.some.injEq] at htr'; subst htr'
+        exact Stmt.tr_uses _ _ (Stmt.tr_pick v c.other po hpo c.items pi hpi) (Stmt.pick_mentions c hfresh v)
+
+/-- When the hypothesis fails — a variable is itself called `case_selector` — the temporary overwrites it:
+`CASE case_selector + 1 OF 1 : r := case_selector; END_CASE` from case_selector = 0 leaves r = 0 in EXPRESS and r = 1 in the
+written Python (the finding `func-value:variable-named-case-selector`). -/
+theorem C18_case_temporary_not_fresh_witness :
+    let c : Stmt.Case := { sel := .bin .plus (.attr "case_selector") (.int 1), items := [(1, .assign "r" (.attr "case_selector"))], other := none }
+    let env : Stmt.Env := [("case_selector", .int 0)]
+    c.fresh = false ∧
+    (Spec.Stmt.execCase 5 env c).map (fun q => Body.lookup q.1 "r") = some (some (.int 0)) ∧
+    ((Stmt.trCase c).bind (fun pc => Stmt.pyExecCase 5 (Body.instanceOf env) pc)).map (fun q => Body.lookup q.1 "r") = some (some (.int 1)) := by
+  decide
 
 
 end StepModel.GenPy
